@@ -837,6 +837,7 @@ IndexStack indexStackOf(const VariablePtr &variable)
 
 void recordVariableEquivalences(const ComponentPtr &component, EquivalenceMap &equivalenceMap, IndexStack &indexStack)
 {
+    auto model = owningModel(component);
     for (size_t index = 0; index < component->variableCount(); ++index) {
         auto variable = component->variable(index);
         for (size_t j = 0; j < variable->equivalentVariableCount(); ++j) {
@@ -844,6 +845,10 @@ void recordVariableEquivalences(const ComponentPtr &component, EquivalenceMap &e
                 indexStack.push_back(index);
             }
             auto equivalentVariable = variable->equivalentVariable(j);
+            if ((model == nullptr) || (owningModel(equivalentVariable) != model)) {
+                // An equivalent variable that is not in the same model cannot be located in it.
+                continue;
+            }
             auto equivalentVariableIndexStack = indexStackOf(equivalentVariable);
             if (equivalenceMap.count(indexStack) == 0) {
                 equivalenceMap.emplace(indexStack, std::vector<IndexStack>());
